@@ -155,7 +155,8 @@ class Impl:
 
 
 class Unit:
-    def __init__(self, name, skeleton, items, serves, includes=None, verus_args=(), description=""):
+    def __init__(self, name, skeleton, items, serves, includes=None, verus_args=(), description="", carry_facts_into_loops=True):
+        self.carry_facts_into_loops = carry_facts_into_loops
         self.name = name
         self.skeleton = skeleton    # path of skeleton .rs relative to /verif/units
         self.items = list(items)
